@@ -5,7 +5,7 @@ import pyref
 FAMILY = "hll"
 CORR = "Hll"
 FAMNUM = 6
-ORACLES = {"prop_ok": 0}
+ORACLES = {"prop_ok": 0, "union_ok": 1}
 GEN_MODULES = [("GenHll",
                 ["hll/mod.rs", "hll/serialization.rs", "hll/container.rs", "hll/list.rs", "hll/hash_set.rs",
                  "hll/aux_map.rs", "hll/array4.rs", "hll/array6.rs", "hll/coupon_mapping.rs", "hll/estimator.rs", "hll/sketch.rs"],
@@ -20,7 +20,10 @@ GEN_MODULES = [("GenHll",
                  "hll/sketch.rs": ["update_with_coupon"], "hll/array6.rs": ["num_bytes_for_k"]},
                 {"hll/coupon_mapping.rs": ["X_ARR", "Y_ARR"], "hll/estimator.rs": ["HIP_LB", "HIP_UB"]},
                 {"hll/estimator.rs": ["get_rel_err"]})]
-OPNAMES = {1: "update", 2: "coupon", 3: "dump", 4: "estimate", 5: "bounds", 6: "raw", 7: "serialize"}
+OPNAMES = {1: "update", 2: "coupon", 3: "dump", 4: "estimate", 5: "bounds", 6: "raw", 7: "serialize",
+           10: "u.new", 11: "u.coupon", 12: "u.update", 13: "u.mark_ooo", 14: "union.update", 15: "union.update_value",
+           16: "union.reset", 17: "u.dump", 18: "union.to_sketch", 19: "union.to_sketch.estimate", 20: "union.info",
+           21: "union.estimate"}
 
 
 M26 = (1 << 26) - 1
@@ -235,12 +238,110 @@ def gen_case(rng, cid, tier, focus=None):
     return Case(cid, [lgk], b.ops, tag="hll-%s-lgk%d" % (kind.__name__[7:], lgk))
 
 
+# ------------------------------------------------------------------ union cases (C03)
+def set_threshold(lgk):
+    """number of distinct coupons at which a sketch of lg_k turns into an array"""
+    return 8 if lgk < 8 else 3 * (1 << (lgk - 3)) // 4 + 1
+
+
+def gen_union_case(rng, cid, tier):
+    hi = 14 if tier == "quick" else 16
+    lg_max = rng.choice([4, 5, 7, 8, 9, 10, 10, 11, 12] + ([13, 14] if rng.random() < 0.3 else []) + ([hi] if tier != "quick" else []))
+    ops = []
+    n_in = rng.choice([1, 2, 2, 3, 3, 4, 5, 6])
+    base = rng.getrandbits(40)
+    pool = rng.choice([200, 2000, 20000])          # items are drawn from a shared pool so that inputs overlap
+    kinds = []
+    for i in range(n_in):
+        r = rng.random()
+        if r < 0.55:
+            lgk = max(4, min(hi, lg_max + rng.choice([-3, -2, -1, 0, 0, 0, 1, 2, 3])))
+        else:
+            lgk = rng.randint(4, 12 if tier == "quick" else hi)
+        t = rng.randrange(3)
+        kind = rng.choice(["empty", "list", "list", "set", "set", "array", "array", "array", "array_ooo", "array_ooo"])
+        if kind == "set" and lgk < 8:
+            kind = "array"
+        ops.append((10, [i, lgk, t]))
+        thr = set_threshold(lgk)
+        if kind == "empty":
+            n = 0
+        elif kind == "list":
+            n = rng.randint(1, 7)
+        elif kind == "set":
+            n = rng.randint(8, thr - 1)
+        else:
+            n = thr + rng.choice([0, 1, 5, rng.randint(0, 3 * (1 << lgk))]) if lgk <= 11 else thr + rng.randint(0, 600)
+        hashed = rng.random() < 0.6
+        fed = 0
+        guard = 0
+        seen = set()
+        while len(seen) < n and guard < 20 * n + 100:
+            guard += 1
+            if hashed:
+                item = base + rng.randrange(max(pool, 4 * n))
+                c = coupon_of_item(item)
+                ops.append((12, [i, item, c]))
+            else:
+                c = cp(rng.getrandbits(26) if rng.random() < 0.7 else rng.randrange(1 << lgk), rand_value(rng))
+                ops.append((11, [i, c]))
+            seen.add(c)
+        if kind == "array_ooo":
+            ops.append((13, [i]))
+        if lgk <= 10 or rng.random() < 0.3:
+            ops.append((17, [i]))
+        kinds.append((kind, lgk, t))
+
+    def look(full):
+        big = (lg_max > 11)
+        types = (0, 1, 2) if (full and not big) else ((2, rng.randrange(2)) if not big else (rng.randrange(3),))
+        for t in types:
+            ops.append((18, [t]))
+        for t in (0, 1, 2):
+            ops.append((19, [t]))
+        ops.append((21, []))
+        ops.append((20, []))
+
+    def feed(order, dups):
+        for i in order:
+            ops.append((14, [i]))
+            if rng.random() < 0.5:
+                look(full=False)
+            if dups and rng.random() < 0.3:
+                ops.append((14, [rng.choice(order)]))
+            if rng.random() < 0.15:
+                item = base + rng.randrange(pool)
+                ops.append((15, [item, coupon_of_item(item)]))
+        look(full=True)
+
+    look(full=False)                                   # the empty union
+    order = list(range(n_in))
+    rng.shuffle(order)
+    feed(order, dups=False)
+    rounds = rng.choice([1, 2, 2, 3])
+    for _ in range(rounds - 1):
+        ops.append((16, []))
+        if rng.random() < 0.3:
+            look(full=False)
+        rng.shuffle(order)
+        feed(order, dups=True)
+    tag = "hllunion-lgmax%d-%s" % (lg_max, "+".join("%s%d" % (k[:1] if k != "array_ooo" else "o", l) for k, l, t in kinds))
+    return Case(cid, [lg_max, 1], ops, tag=tag)
+
+
 def gen(rng, tier, n=None, focus=None):
+    if focus == "union":
+        n = n or (120 if tier == "quick" else 1500)
+        return [gen_union_case(rng, i, tier) for i in range(n)]
     n = n or (90 if tier == "quick" else 900)
     return [gen_case(rng, i, tier, focus) for i in range(n)]
 
 
 def nontrivial(case, obs):
-    """at least two distinct coupons fed and at least one state dump"""
+    """C02: at least two distinct coupons fed and at least one state dump;
+    union cases: at least one non-empty sketch merged and one to_sketch dump"""
+    if len(case.cfg) >= 2 and case.cfg[1] == 1:
+        fed = {a[0] for (c, a) in case.ops if c in (11, 12)}
+        return any(c == 14 and a[0] in fed for (c, a) in case.ops) and any(c == 18 for (c, a) in case.ops)
     cs = {a[-1] for (c, a) in case.ops if c in (1, 2)}
     return len(cs) >= 2 and any(c == 3 for (c, a) in case.ops)
